@@ -32,6 +32,7 @@ type FuncContract struct {
 	AtCall      map[string][]Clause // assertions checked in the caller just before each call of the named callee
 	Stable      []Expr              // fields that opaque callees are assumed never to write (set once at construction)
 	StableSrc   []string
+	OwnPanicsNever bool             // the function's own run-time panics (index, nil, slice, division, explicit panic) are excluded; callees are not judged
 	OpaqueCalls bool                // uncontracted callees are treated as opaque: arbitrary effect on memory, may panic
 	PanicOnlyWhen []Clause          // a run-time panic is acceptable only in states satisfying one of these
 	PanicsNever bool
@@ -98,7 +99,7 @@ func newContracts() *Contracts {
 	return &Contracts{Funcs: map[string]*FuncContract{}, SpecFuncs: map[string]*SpecFunc{}, Lemmas: map[string]*Lemma{}, Ghosts: map[string]*GhostVar{}, FuncFields: map[string]string{}, OpaqueTys: map[string]bool{}, NonConsensusMapLoops: map[string]string{}}
 }
 
-var directiveKW = []string{"func", "invoke", "spec", "pred", "lemma", "axiom", "ghost", "requires", "ensures", "modifies", "loop", "panics_never", "may_panic", "inline", "trusted", "uses", "noreturn", "pure", "fresh_result", "funcfield", "sink", "opaque", "maploop", "at", "opaque_calls", "panic_only_when", "stable"}
+var directiveKW = []string{"func", "invoke", "spec", "pred", "lemma", "axiom", "ghost", "requires", "ensures", "modifies", "loop", "panics_never", "may_panic", "inline", "trusted", "uses", "noreturn", "pure", "fresh_result", "funcfield", "sink", "opaque", "maploop", "at", "opaque_calls", "panic_only_when", "stable", "own_panics_never"}
 
 type directive struct {
 	kw    string
@@ -415,6 +416,8 @@ func (c *Contracts) loadFile(path, pkgPath string, isLib bool) error {
 					curF.Stable = append(curF.Stable, e)
 					curF.StableSrc = append(curF.StableSrc, strings.TrimSpace(part))
 				}
+			case "own_panics_never":
+				curF.OwnPanicsNever = true
 			case "opaque_calls":
 				curF.OpaqueCalls = true
 			case "panic_only_when":
